@@ -13,16 +13,17 @@ from txdbus import router, message, objects, interface
 ACTIONS = {'Add': ('r',), 'Del': ('id',), 'Route': ('i', 'raising'), 'RouteRemoving': ('i', 'x')}
 OBS = ['invoked']
 NONE = '-'
+NONES = ('NONE',)      # absent key whose values are character sequences (the empty sequence is the empty string)
 
 
 def chars(s):
-    return tuple(s) if s is not None else ()
+    return tuple(s) if s is not None else NONES
 
 
 def universe():
     """message universe: (model record, real message object)"""
     out = []
-    bodies = [None, [('str', 'x')], [('str', 'y')], [('int', 5)], [('str', '/aa/bb/')], [('str', '/aa/')],
+    bodies = [None, [('str', '')], [('str', 'x')], [('str', 'y')], [('int', 5)], [('str', '/aa/bb/')], [('str', '/aa/')],
               [('str', '/aa/bb/cc')], [('str', '/aab')], [('str', '/aa/bb')], [('str', 'x'), ('str', 'z')], [('str', '/aa')]]
     serial = [100]
 
@@ -89,9 +90,9 @@ def rule_kwargs(r):
         kw['interface'] = CONC.get(r['iface'], r['iface'])
     if r['member'] != NONE:
         kw['member'] = r['member']
-    if r['path']:
+    if r['path'] != NONES:
         kw['path'] = ''.join(r['path'])
-    if r['ns']:
+    if r['ns'] != NONES:
         kw['path_namespace'] = ''.join(r['ns'])
     if r['dest'] != NONE:
         kw['destination'] = CONC.get(r['dest'], r['dest'])
@@ -99,8 +100,8 @@ def rule_kwargs(r):
 
 
 def rule_args(r):
-    a = [(0, ''.join(r['arg0']))] if r['arg0'] else None
-    p = [(0, ''.join(r['arg0path']))] if r['arg0path'] else None
+    a = [(0, ''.join(r['arg0']))] if r['arg0'] != NONES else None
+    p = [(0, ''.join(r['arg0path']))] if r['arg0path'] != NONES else None
     return a, p
 
 
@@ -312,10 +313,10 @@ def run(tier, seed):
         if si % 300 == 7:
             chk.sample({'rule': rule_kwargs(r), 'arg0': a, 'arg0path': p, 'text': text, 'matches': len(want)})
     # ---- history machine on a real client connection
-    pool = [dict(type=NONE, iface='I1', member=NONE, path=(), ns=(), dest=NONE, arg0=(), arg0path=()),
-            dict(type='signal', iface=NONE, member=NONE, path=(), ns=chars('/a/b'), dest=NONE, arg0=(), arg0path=()),
-            dict(type=NONE, iface=NONE, member='M1', path=(), ns=(), dest=NONE, arg0=(), arg0path=chars('/aa/')),
-            dict(type=NONE, iface=NONE, member=NONE, path=chars('/a/b'), ns=(), dest=NONE, arg0=chars('x'), arg0path=())]
+    pool = [dict(type=NONE, iface='I1', member=NONE, path=NONES, ns=NONES, dest=NONE, arg0=NONES, arg0path=NONES),
+            dict(type='signal', iface=NONE, member=NONE, path=NONES, ns=chars('/a/b'), dest=NONE, arg0=NONES, arg0path=NONES),
+            dict(type=NONE, iface=NONE, member='M1', path=NONES, ns=NONES, dest=NONE, arg0=NONES, arg0path=chars('/aa/')),
+            dict(type=NONE, iface=NONE, member=NONE, path=chars('/a/b'), ns=NONES, dest=NONE, arg0=chars('x'), arg0path=NONES)]
     sig_idx = [i for i, m in enumerate(msgs) if m['type'] == 'signal']
     pick = rng.sample(sig_idx, 5) + [i for i in sig_idx if msgs[i]['path'] == chars('/a/bc')][:1]
     hmsgs = [msgs[i] for i in pick]
@@ -352,9 +353,9 @@ def run(tier, seed):
     traces = []
     descr = []
     vals = {'type': [NONE, 'signal', 'method_call', 'method_return'], 'iface': [NONE, 'I1', 'I2'], 'member': [NONE, 'M1', 'M2'],
-            'path': [(), chars('/a/b'), chars('/a/bc'), chars('/')], 'ns': [(), chars('/'), chars('/a'), chars('/a/b'), chars('/a/b/c')],
-            'dest': [NONE, 'D'], 'arg0': [(), chars('x'), chars('/aa/')],
-            'arg0path': [(), chars('/aa/'), chars('/aa/bb/'), chars('/aa/bb'), chars('/aa'), chars('/'), chars('/aa/bb/cc')]}
+            'path': [NONES, chars('/a/b'), chars('/a/bc'), chars('/')], 'ns': [NONES, chars('/'), chars('/a'), chars('/a/b'), chars('/a/b/c')],
+            'dest': [NONE, 'D'], 'arg0': [NONES, chars('x'), chars('/aa/'), ()],
+            'arg0path': [NONES, chars('/aa/'), chars('/aa/bb/'), chars('/aa/bb'), chars('/aa'), chars('/'), chars('/aa/bb/cc')]}
 
     for _ in range(1500 if thorough else 300):
         r = {k: rng.choice(v) if rng.random() < 0.45 else v[0] for k, v in vals.items()}
